@@ -28,6 +28,8 @@ type Case struct {
 type ModLoc struct {
 	Expr *SExpr // pointer / map / slice expression whose target may change
 	All  string // "T.f": the whole field array of type T may change
+	Any  bool   // "*": anything
+	When *SExpr // optional condition (evaluated in the pre-state)
 }
 
 type Contract struct {
@@ -35,11 +37,13 @@ type Contract struct {
 	Func       string
 	Props      []string
 	Requires   []*Clause
+	Assumes    []*Clause // assumed at entry, NOT checked at call sites (reported as unchecked assumptions)
 	Ensures    []*Clause
 	Cases      []*Case
 	Modifies   []ModLoc
 	ModAny     bool
 	LoopInv    map[int][]*Clause
+	LoopAssume map[int][]*Clause // assumed (unchecked) facts at loop heads; reported as assumptions
 	Unroll     map[int]int
 	Panics     *Clause
 	Inline     bool
@@ -62,6 +66,20 @@ type HoldDecl struct {
 	Lock  *SExpr // expression denoting the struct that contains the lock
 	Field string
 	Mode  lockMode
+}
+
+// MarkRule: a ghost update of a mark set attached to an atomic load of a field
+// or to a call of a function.
+//
+//	on load scope.closed: closedSeen[self] = closedSeen[self] || after
+//	on call (*scope).report: flushed[s] = closedSeen[s]
+type MarkRule struct {
+	Kind   string // load | call
+	Target string // Type.field | function relative name
+	Mark   string
+	Index  *SExpr
+	Value  *SExpr
+	Where  string
 }
 
 // WitnessDecl: a name usable in postconditions that stands for the final value
@@ -106,13 +124,16 @@ type PkgSpec struct {
 	Extern    map[string]bool      // extern interfaces: invoke = trace event
 	PureM     map[string]bool      // "Iface.Method": deterministic, effect-free interface methods
 	ExtPost   map[string][]*Clause // "Iface.Method": assumed facts about results of extern calls
+	Marks     []string             // ghost mark sets (Array Int Bool), function-local knowledge
+	MarkRules []MarkRule
 	Closed    map[string]*ClosedIface
 	Protos    map[string]*Protocol
 	Locks     []*LockSpec
 	InitOnly  []string
+	Monotone  []string // Type.field: boolean flags that only ever go from false to true
 }
 
-var keywordRe = regexp.MustCompile(`^(func|witness|pred|pure|axiom|lemma|extern|closed|protocol|lock|property|requires|ensures|case|modifies|loop|panics|inline|trusted|emits|allocs|unroll|shared|ghost|inv|threads|on|guar|protects|discipline|initonly|atomic|noframe|level|assume|self|local|single|init|rely|counter|holds|acquires)\b`)
+var keywordRe = regexp.MustCompile(`^(func|monotone|mark|witness|pred|pure|axiom|lemma|extern|closed|protocol|lock|property|requires|ensures|case|modifies|loop|panics|inline|trusted|emits|allocs|unroll|shared|ghost|inv|threads|on|guar|protects|discipline|initonly|atomic|noframe|level|assume|self|local|single|init|rely|counter|holds|acquires)\b`)
 
 // parseContractFile extracts the //@ lines of a file.
 func parseContractComments(f *ast.File, fname string) []specLine {
@@ -289,6 +310,12 @@ func parsePkgSpec(pkg string, lines []specLine) (*PkgSpec, error) {
 				}
 				continue
 			}
+			if cur != nil && !strings.Contains(rest, " ensures ") {
+				if err := cur.parseLine(&curCase, kw, rest, l.where); err != nil {
+					return nil, err
+				}
+				continue
+			}
 			// assume Iface.Method ensures expr
 			i := strings.Index(rest, " ensures ")
 			if i < 0 {
@@ -300,6 +327,48 @@ func parsePkgSpec(pkg string, lines []specLine) (*PkgSpec, error) {
 			}
 			k := strings.TrimSpace(rest[:i])
 			ps.ExtPost[k] = append(ps.ExtPost[k], cl)
+		case "mark":
+			for _, m := range strings.Split(rest, ",") {
+				ps.Marks = append(ps.Marks, strings.TrimSpace(m))
+			}
+			cur, curProto, curLock = nil, nil, nil
+		case "on":
+			if curProto != nil {
+				if err := curProto.parseLine(kw, rest, l.where); err != nil {
+					return nil, err
+				}
+				continue
+			}
+			// on load T.f: m[idx] = e   |   on call F: m[idx] = e
+			i := strings.Index(rest, ":")
+			f := strings.Fields(rest[:i])
+			if i < 0 || len(f) < 2 || (f[0] != "load" && f[0] != "call") {
+				return nil, fmt.Errorf("%s: on load T.f: m[i] = e | on call F: m[i] = e", l.where)
+			}
+			for _, a := range strings.Split(rest[i+1:], ";") {
+				a = strings.TrimSpace(a)
+				if a == "" {
+					continue
+				}
+				eq := strings.Index(a, "] =")
+				b := strings.Index(a, "[")
+				if eq < 0 || b < 0 {
+					return nil, fmt.Errorf("%s: mark assignment m[i] = e expected", l.where)
+				}
+				ix, err := parseSpec(a[b+1 : eq])
+				if err != nil {
+					return nil, fmt.Errorf("%s: %v", l.where, err)
+				}
+				val, err := parseSpec(a[eq+3:])
+				if err != nil {
+					return nil, fmt.Errorf("%s: %v", l.where, err)
+				}
+				ps.MarkRules = append(ps.MarkRules, MarkRule{Kind: f[0], Target: strings.Join(f[1:], " "), Mark: strings.TrimSpace(a[:b]), Index: ix, Value: val, Where: l.where})
+			}
+		case "monotone":
+			for _, f := range strings.Split(rest, ",") {
+				ps.Monotone = append(ps.Monotone, strings.TrimSpace(f))
+			}
 		case "initonly":
 			for _, f := range strings.Split(rest, ",") {
 				ps.InitOnly = append(ps.InitOnly, strings.TrimSpace(f))
@@ -404,20 +473,38 @@ func (c *Contract) parseLine(curCase **Case, kw, rest, where string) error {
 			cs.Requires = append(cs.Requires, cl)
 		}
 	case "modifies":
+		// modifies [if <cond> :] loc, loc, ...
+		var when *SExpr
+		if strings.HasPrefix(rest, "if ") {
+			i := strings.Index(rest, " : ")
+			if i < 0 {
+				return fmt.Errorf("%s: modifies if <cond> : <locations>", where)
+			}
+			w, err := parseSpec(rest[3:i])
+			if err != nil {
+				return fmt.Errorf("%s: %v", where, err)
+			}
+			when = w
+			rest = rest[i+3:]
+		}
 		for _, m := range splitTop(rest) {
 			m = strings.TrimSpace(m)
 			switch {
 			case m == "nothing":
 			case m == "*":
-				c.ModAny = true
+				if when == nil {
+					c.ModAny = true
+				} else {
+					c.Modifies = append(c.Modifies, ModLoc{Any: true, When: when})
+				}
 			case strings.HasPrefix(m, "all "):
-				c.Modifies = append(c.Modifies, ModLoc{All: strings.TrimSpace(m[4:])})
+				c.Modifies = append(c.Modifies, ModLoc{All: strings.TrimSpace(m[4:]), When: when})
 			default:
 				x, err := parseSpec(m)
 				if err != nil {
 					return fmt.Errorf("%s: %v", where, err)
 				}
-				c.Modifies = append(c.Modifies, ModLoc{Expr: x})
+				c.Modifies = append(c.Modifies, ModLoc{Expr: x, When: when})
 			}
 		}
 	case "loop":
@@ -437,6 +524,15 @@ func (c *Contract) parseLine(curCase **Case, kw, rest, where string) error {
 				return err
 			}
 			c.LoopInv[n] = append(c.LoopInv[n], cl)
+		case "assume":
+			cl, err := parseLabelled(body, where)
+			if err != nil {
+				return err
+			}
+			if c.LoopAssume == nil {
+				c.LoopAssume = map[int][]*Clause{}
+			}
+			c.LoopAssume[n] = append(c.LoopAssume[n], cl)
 		case "unroll":
 			k, err := strconv.Atoi(strings.TrimSpace(body))
 			if err != nil {
@@ -484,6 +580,12 @@ func (c *Contract) parseLine(curCase **Case, kw, rest, where string) error {
 			}
 			c.Acquires = append(c.Acquires, HoldDecl{Lock: x, Field: a[i+1:], Mode: lockW})
 		}
+	case "assume":
+		cl, err := parseLabelled(rest, where)
+		if err != nil {
+			return err
+		}
+		c.Assumes = append(c.Assumes, cl)
 	case "holds":
 		// holds <expr>.<lockfield> R|W
 		f := strings.Fields(rest)
